@@ -119,5 +119,43 @@ func H_c05_final() {
 	if ts.Effects() > 0 {
 		verif_assert(!A.IsKnownRequestID(ts, rid, cmd), "after the (single) callback of the task was acted upon, its request id is no longer accepted")
 	}
+	// commands whose callback is complete once its fixed fields are present (Command.c: one
+	// package with these fields): the id is forgotten whether or not anything is printed
+	minLen := -1
+	switch cmd {
+	case COMMAND_SLEEP, COMMAND_MEM_FILE:
+		minLen = 8
+	case COMMAND_EXIT, COMMAND_PROC_PPIDSPOOF, COMMAND_INJECT_SHELLCODE, COMMAND_INJECT_DLL:
+		minLen = 4
+	case COMMAND_KILL_DATE, COMMAND_ASSEMBLY_LIST_VERSIONS:
+		minLen = 0
+	}
+	if minLen >= 0 {
+		if L >= minLen {
+			verif_assert(!A.IsKnownRequestID(ts, rid, cmd), "a complete final callback retires exactly its own request id")
+		}
+	}
+	verif_witness()
+}
+
+// H_c05_cross: a request id issued to a pivot child (and wrapped for its parent by the real
+// task-building code) is outstanding for the child only: the same id in a callback of the
+// parent, with an ordinary command, has no effect.
+func H_c05_cross() {
+	ci := nondet_choice("cmd", len(verifCommands))
+	L := nondet_choice("L", 5)
+	ts, A, B, _ := verifStateS()
+	cmd := verifCommands[ci]
+	verif_assume(cmd != COMMAND_SOCKET)
+	verif_assume(cmd != COMMAND_PIVOT)
+	rid := nondet_u32("rid")
+	B.AddJobToQueue(Job{Command: COMMAND_SLEEP, RequestID: rid, Data: []interface{}{5, 10}})
+	verif_assert(B.IsKnownRequestID(ts, rid, COMMAND_SLEEP), "the id is outstanding for the child it was issued to")
+	dA := VerifDigest(A)
+	calls := len(ts.Calls)
+	body := nondet_bytes("body", L)
+	A.TaskDispatch(rid, cmd, parser.NewParser(body), ts)
+	verif_assert(len(ts.Calls) == calls, "an id issued to another agent (the pivot child) is not accepted from the parent: no teamserver call")
+	verif_assert(VerifDigest(A) == dA, "an id issued to another agent is not accepted from the parent: session unchanged")
 	verif_witness()
 }
